@@ -1,4 +1,4 @@
----- MODULE PoolCore_TTrace_1790347698 ----
+---- MODULE PoolCore_TTrace_1790348554 ----
 EXTENDS Sequences, TLCExt, PoolCore_TEConstants, PoolCore, Toolbox, Naturals, TLC
 
 _expression ==
@@ -17,7 +17,7 @@ _inv ==
         /\
         dirty = ((s1 :> FALSE @@ s2 :> FALSE))
         /\
-        nmsg = ((c1 :> 1 @@ c2 :> 0))
+        nmsg = ((c1 :> 2 @@ c2 :> 0))
         /\
         tUnread = ((s1 :> FALSE @@ s2 :> FALSE))
         /\
@@ -27,9 +27,9 @@ _inv ==
         /\
         last = ((s1 :> c1 @@ s2 :> NONE))
         /\
-        idle = ((s1 :> TRUE @@ s2 :> FALSE))
+        idle = ((s1 :> FALSE @@ s2 :> FALSE))
         /\
-        held = ((c1 :> NONE @@ c2 :> NONE))
+        held = ((c1 :> s1 @@ c2 :> NONE))
         /\
         bTx = ((s1 :> FALSE @@ s2 :> FALSE))
         /\
@@ -39,19 +39,19 @@ _inv ==
         /\
         tCopy = ((s1 :> "no" @@ s2 :> "no"))
         /\
-        bCopy = ((s1 :> FALSE @@ s2 :> FALSE))
+        bCopy = ((s1 :> TRUE @@ s2 :> FALSE))
         /\
-        pc = ((c1 :> "idle" @@ c2 :> "off"))
+        pc = ((c1 :> "intx" @@ c2 :> "off"))
         /\
-        cmap = ((c1 :> NONE @@ c2 :> NONE))
+        cmap = ((c1 :> s1 @@ c2 :> NONE))
         /\
         tPend = ((s1 :> NONE @@ s2 :> NONE))
         /\
-        tDirt = ((s1 :> c1 @@ s2 :> NONE))
+        tDirt = ((s1 :> NONE @@ s2 :> NONE))
         /\
         tTx = ((s1 :> "I" @@ s2 :> "I"))
         /\
-        pend = ((c1 :> "prep" @@ c2 :> NONE))
+        pend = ((c1 :> "begin" @@ c2 :> NONE))
     )
 ----
 
@@ -125,7 +125,7 @@ _next ==
 \* to `JsonSerialize`. For example, a sub-sequence of _TETrace.
     \* ASSUME
     \*     LET J == INSTANCE Json
-    \*         IN J!JsonSerialize("PoolCore_TTrace_1790347698.json", _TETrace)
+    \*         IN J!JsonSerialize("PoolCore_TTrace_1790348554.json", _TETrace)
 
 =============================================================================
 
@@ -195,7 +195,7 @@ Parsing and semantic processing can take forever if the trace below is long.
 \*---- MODULE PoolCore_TETrace ----
 \*EXTENDS IOUtils, PoolCore_TEConstants, PoolCore, TLC
 \*
-\*trace == IODeserialize("PoolCore_TTrace_1790347698.bin", TRUE)
+\*trace == IODeserialize("PoolCore_TTrace_1790348554.bin", TRUE)
 \*
 \*=============================================================================
 \*
@@ -207,10 +207,11 @@ trace ==
     <<
     ([dirty |-> (s1 :> FALSE @@ s2 :> FALSE),nmsg |-> (c1 :> 0 @@ c2 :> 0),tUnread |-> (s1 :> FALSE @@ s2 :> FALSE),bad |-> (s1 :> FALSE @@ s2 :> FALSE),alive |-> (s1 :> FALSE @@ s2 :> FALSE),last |-> (s1 :> NONE @@ s2 :> NONE),idle |-> (s1 :> FALSE @@ s2 :> FALSE),held |-> (c1 :> NONE @@ c2 :> NONE),bTx |-> (s1 :> FALSE @@ s2 :> FALSE),viol |-> {},bData |-> (s1 :> FALSE @@ s2 :> FALSE),tCopy |-> (s1 :> "no" @@ s2 :> "no"),bCopy |-> (s1 :> FALSE @@ s2 :> FALSE),pc |-> (c1 :> "off" @@ c2 :> "off"),cmap |-> (c1 :> NONE @@ c2 :> NONE),tPend |-> (s1 :> NONE @@ s2 :> NONE),tDirt |-> (s1 :> NONE @@ s2 :> NONE),tTx |-> (s1 :> "I" @@ s2 :> "I"),pend |-> (c1 :> NONE @@ c2 :> NONE)]),
     ([dirty |-> (s1 :> FALSE @@ s2 :> FALSE),nmsg |-> (c1 :> 0 @@ c2 :> 0),tUnread |-> (s1 :> FALSE @@ s2 :> FALSE),bad |-> (s1 :> FALSE @@ s2 :> FALSE),alive |-> (s1 :> FALSE @@ s2 :> FALSE),last |-> (s1 :> NONE @@ s2 :> NONE),idle |-> (s1 :> FALSE @@ s2 :> FALSE),held |-> (c1 :> NONE @@ c2 :> NONE),bTx |-> (s1 :> FALSE @@ s2 :> FALSE),viol |-> {},bData |-> (s1 :> FALSE @@ s2 :> FALSE),tCopy |-> (s1 :> "no" @@ s2 :> "no"),bCopy |-> (s1 :> FALSE @@ s2 :> FALSE),pc |-> (c1 :> "idle" @@ c2 :> "off"),cmap |-> (c1 :> NONE @@ c2 :> NONE),tPend |-> (s1 :> NONE @@ s2 :> NONE),tDirt |-> (s1 :> NONE @@ s2 :> NONE),tTx |-> (s1 :> "I" @@ s2 :> "I"),pend |-> (c1 :> NONE @@ c2 :> NONE)]),
-    ([dirty |-> (s1 :> FALSE @@ s2 :> FALSE),nmsg |-> (c1 :> 1 @@ c2 :> 0),tUnread |-> (s1 :> FALSE @@ s2 :> FALSE),bad |-> (s1 :> FALSE @@ s2 :> FALSE),alive |-> (s1 :> FALSE @@ s2 :> FALSE),last |-> (s1 :> NONE @@ s2 :> NONE),idle |-> (s1 :> FALSE @@ s2 :> FALSE),held |-> (c1 :> NONE @@ c2 :> NONE),bTx |-> (s1 :> FALSE @@ s2 :> FALSE),viol |-> {},bData |-> (s1 :> FALSE @@ s2 :> FALSE),tCopy |-> (s1 :> "no" @@ s2 :> "no"),bCopy |-> (s1 :> FALSE @@ s2 :> FALSE),pc |-> (c1 :> "wait" @@ c2 :> "off"),cmap |-> (c1 :> NONE @@ c2 :> NONE),tPend |-> (s1 :> NONE @@ s2 :> NONE),tDirt |-> (s1 :> NONE @@ s2 :> NONE),tTx |-> (s1 :> "I" @@ s2 :> "I"),pend |-> (c1 :> "prep" @@ c2 :> NONE)]),
-    ([dirty |-> (s1 :> FALSE @@ s2 :> FALSE),nmsg |-> (c1 :> 1 @@ c2 :> 0),tUnread |-> (s1 :> FALSE @@ s2 :> FALSE),bad |-> (s1 :> FALSE @@ s2 :> FALSE),alive |-> (s1 :> TRUE @@ s2 :> FALSE),last |-> (s1 :> NONE @@ s2 :> NONE),idle |-> (s1 :> FALSE @@ s2 :> FALSE),held |-> (c1 :> s1 @@ c2 :> NONE),bTx |-> (s1 :> FALSE @@ s2 :> FALSE),viol |-> {},bData |-> (s1 :> FALSE @@ s2 :> FALSE),tCopy |-> (s1 :> "no" @@ s2 :> "no"),bCopy |-> (s1 :> FALSE @@ s2 :> FALSE),pc |-> (c1 :> "fwd" @@ c2 :> "off"),cmap |-> (c1 :> s1 @@ c2 :> NONE),tPend |-> (s1 :> NONE @@ s2 :> NONE),tDirt |-> (s1 :> NONE @@ s2 :> NONE),tTx |-> (s1 :> "I" @@ s2 :> "I"),pend |-> (c1 :> "prep" @@ c2 :> NONE)]),
-    ([dirty |-> (s1 :> FALSE @@ s2 :> FALSE),nmsg |-> (c1 :> 1 @@ c2 :> 0),tUnread |-> (s1 :> FALSE @@ s2 :> FALSE),bad |-> (s1 :> FALSE @@ s2 :> FALSE),alive |-> (s1 :> TRUE @@ s2 :> FALSE),last |-> (s1 :> c1 @@ s2 :> NONE),idle |-> (s1 :> FALSE @@ s2 :> FALSE),held |-> (c1 :> s1 @@ c2 :> NONE),bTx |-> (s1 :> FALSE @@ s2 :> FALSE),viol |-> {},bData |-> (s1 :> FALSE @@ s2 :> FALSE),tCopy |-> (s1 :> "no" @@ s2 :> "no"),bCopy |-> (s1 :> FALSE @@ s2 :> FALSE),pc |-> (c1 :> "cleanup" @@ c2 :> "off"),cmap |-> (c1 :> s1 @@ c2 :> NONE),tPend |-> (s1 :> NONE @@ s2 :> NONE),tDirt |-> (s1 :> c1 @@ s2 :> NONE),tTx |-> (s1 :> "I" @@ s2 :> "I"),pend |-> (c1 :> "prep" @@ c2 :> NONE)]),
-    ([dirty |-> (s1 :> FALSE @@ s2 :> FALSE),nmsg |-> (c1 :> 1 @@ c2 :> 0),tUnread |-> (s1 :> FALSE @@ s2 :> FALSE),bad |-> (s1 :> FALSE @@ s2 :> FALSE),alive |-> (s1 :> TRUE @@ s2 :> FALSE),last |-> (s1 :> c1 @@ s2 :> NONE),idle |-> (s1 :> TRUE @@ s2 :> FALSE),held |-> (c1 :> NONE @@ c2 :> NONE),bTx |-> (s1 :> FALSE @@ s2 :> FALSE),viol |-> {},bData |-> (s1 :> FALSE @@ s2 :> FALSE),tCopy |-> (s1 :> "no" @@ s2 :> "no"),bCopy |-> (s1 :> FALSE @@ s2 :> FALSE),pc |-> (c1 :> "idle" @@ c2 :> "off"),cmap |-> (c1 :> NONE @@ c2 :> NONE),tPend |-> (s1 :> NONE @@ s2 :> NONE),tDirt |-> (s1 :> c1 @@ s2 :> NONE),tTx |-> (s1 :> "I" @@ s2 :> "I"),pend |-> (c1 :> "prep" @@ c2 :> NONE)])
+    ([dirty |-> (s1 :> FALSE @@ s2 :> FALSE),nmsg |-> (c1 :> 1 @@ c2 :> 0),tUnread |-> (s1 :> FALSE @@ s2 :> FALSE),bad |-> (s1 :> FALSE @@ s2 :> FALSE),alive |-> (s1 :> FALSE @@ s2 :> FALSE),last |-> (s1 :> NONE @@ s2 :> NONE),idle |-> (s1 :> FALSE @@ s2 :> FALSE),held |-> (c1 :> NONE @@ c2 :> NONE),bTx |-> (s1 :> FALSE @@ s2 :> FALSE),viol |-> {},bData |-> (s1 :> FALSE @@ s2 :> FALSE),tCopy |-> (s1 :> "no" @@ s2 :> "no"),bCopy |-> (s1 :> FALSE @@ s2 :> FALSE),pc |-> (c1 :> "wait" @@ c2 :> "off"),cmap |-> (c1 :> NONE @@ c2 :> NONE),tPend |-> (s1 :> NONE @@ s2 :> NONE),tDirt |-> (s1 :> NONE @@ s2 :> NONE),tTx |-> (s1 :> "I" @@ s2 :> "I"),pend |-> (c1 :> "copyin" @@ c2 :> NONE)]),
+    ([dirty |-> (s1 :> FALSE @@ s2 :> FALSE),nmsg |-> (c1 :> 1 @@ c2 :> 0),tUnread |-> (s1 :> FALSE @@ s2 :> FALSE),bad |-> (s1 :> FALSE @@ s2 :> FALSE),alive |-> (s1 :> TRUE @@ s2 :> FALSE),last |-> (s1 :> NONE @@ s2 :> NONE),idle |-> (s1 :> FALSE @@ s2 :> FALSE),held |-> (c1 :> s1 @@ c2 :> NONE),bTx |-> (s1 :> FALSE @@ s2 :> FALSE),viol |-> {},bData |-> (s1 :> FALSE @@ s2 :> FALSE),tCopy |-> (s1 :> "no" @@ s2 :> "no"),bCopy |-> (s1 :> FALSE @@ s2 :> FALSE),pc |-> (c1 :> "fwd" @@ c2 :> "off"),cmap |-> (c1 :> s1 @@ c2 :> NONE),tPend |-> (s1 :> NONE @@ s2 :> NONE),tDirt |-> (s1 :> NONE @@ s2 :> NONE),tTx |-> (s1 :> "I" @@ s2 :> "I"),pend |-> (c1 :> "copyin" @@ c2 :> NONE)]),
+    ([dirty |-> (s1 :> FALSE @@ s2 :> FALSE),nmsg |-> (c1 :> 1 @@ c2 :> 0),tUnread |-> (s1 :> FALSE @@ s2 :> FALSE),bad |-> (s1 :> FALSE @@ s2 :> FALSE),alive |-> (s1 :> TRUE @@ s2 :> FALSE),last |-> (s1 :> c1 @@ s2 :> NONE),idle |-> (s1 :> FALSE @@ s2 :> FALSE),held |-> (c1 :> s1 @@ c2 :> NONE),bTx |-> (s1 :> FALSE @@ s2 :> FALSE),viol |-> {},bData |-> (s1 :> FALSE @@ s2 :> FALSE),tCopy |-> (s1 :> "in" @@ s2 :> "no"),bCopy |-> (s1 :> TRUE @@ s2 :> FALSE),pc |-> (c1 :> "intx" @@ c2 :> "off"),cmap |-> (c1 :> s1 @@ c2 :> NONE),tPend |-> (s1 :> NONE @@ s2 :> NONE),tDirt |-> (s1 :> NONE @@ s2 :> NONE),tTx |-> (s1 :> "I" @@ s2 :> "I"),pend |-> (c1 :> "copyin" @@ c2 :> NONE)]),
+    ([dirty |-> (s1 :> FALSE @@ s2 :> FALSE),nmsg |-> (c1 :> 2 @@ c2 :> 0),tUnread |-> (s1 :> FALSE @@ s2 :> FALSE),bad |-> (s1 :> FALSE @@ s2 :> FALSE),alive |-> (s1 :> TRUE @@ s2 :> FALSE),last |-> (s1 :> c1 @@ s2 :> NONE),idle |-> (s1 :> FALSE @@ s2 :> FALSE),held |-> (c1 :> s1 @@ c2 :> NONE),bTx |-> (s1 :> FALSE @@ s2 :> FALSE),viol |-> {},bData |-> (s1 :> FALSE @@ s2 :> FALSE),tCopy |-> (s1 :> "in" @@ s2 :> "no"),bCopy |-> (s1 :> TRUE @@ s2 :> FALSE),pc |-> (c1 :> "fwd" @@ c2 :> "off"),cmap |-> (c1 :> s1 @@ c2 :> NONE),tPend |-> (s1 :> NONE @@ s2 :> NONE),tDirt |-> (s1 :> NONE @@ s2 :> NONE),tTx |-> (s1 :> "I" @@ s2 :> "I"),pend |-> (c1 :> "begin" @@ c2 :> NONE)]),
+    ([dirty |-> (s1 :> FALSE @@ s2 :> FALSE),nmsg |-> (c1 :> 2 @@ c2 :> 0),tUnread |-> (s1 :> FALSE @@ s2 :> FALSE),bad |-> (s1 :> FALSE @@ s2 :> FALSE),alive |-> (s1 :> TRUE @@ s2 :> FALSE),last |-> (s1 :> c1 @@ s2 :> NONE),idle |-> (s1 :> FALSE @@ s2 :> FALSE),held |-> (c1 :> s1 @@ c2 :> NONE),bTx |-> (s1 :> FALSE @@ s2 :> FALSE),viol |-> {},bData |-> (s1 :> FALSE @@ s2 :> FALSE),tCopy |-> (s1 :> "no" @@ s2 :> "no"),bCopy |-> (s1 :> TRUE @@ s2 :> FALSE),pc |-> (c1 :> "intx" @@ c2 :> "off"),cmap |-> (c1 :> s1 @@ c2 :> NONE),tPend |-> (s1 :> NONE @@ s2 :> NONE),tDirt |-> (s1 :> NONE @@ s2 :> NONE),tTx |-> (s1 :> "I" @@ s2 :> "I"),pend |-> (c1 :> "begin" @@ c2 :> NONE)])
     >>
 ----
 
@@ -224,20 +225,20 @@ CONSTANTS c1, c2, s1, s2
 
 =============================================================================
 
----- CONFIG PoolCore_TTrace_1790347698 ----
+---- CONFIG PoolCore_TTrace_1790348554 ----
 CONSTANTS
     Clients = { c1 , c2 }
     Conns = { s1 , s2 }
     NONE = NONE
     PoolSize = 1
     TxMode = TRUE
-    Dev = { "prepare_not_marked" }
+    Dev = { "error_keeps_copy_mode" }
     MaxMsgs = 3
-    c1 = c1
-    c2 = c2
-    s1 = s1
     s2 = s2
+    c1 = c1
+    s1 = s1
     NONE = NONE
+    c2 = c2
 
 INVARIANT
     _inv
@@ -258,4 +259,4 @@ CONSTANT
 ALIAS
     _expression
 =============================================================================
-\* Generated on Fri Sep 25 14:48:19 UTC 2026
+\* Generated on Fri Sep 25 15:02:35 UTC 2026
